@@ -143,11 +143,20 @@ def run_branch(unit, text, cond, body, src_id, outer_env=None):
 def printer_exact_suffix(unit, fn):
     """the format literal with which the printer appends the exact fraction of a time tag (contains %a), e.g. ' (...+%as)'"""
     lits = []
-    for c in A.calls_in(unit.body(fn)):
-        for a in A.kids(c)[1:]:
-            lit = A.string_literal(a)
-            if lit and "%a" in lit and "..." in lit:
-                lits.append(lit)
+    # the printer itself and the file-local helpers it hands the time-tag case to (two levels)
+    hosts = [fn]
+    for _ in range(2):
+        for h_ in list(hosts):
+            for c in A.calls_in(unit.body(h_)):
+                for g_ in unit.functions.get(A.callee_name(c) or "", []):
+                    if g_ not in hosts and unit.body(g_) is not None and g_.get("storageClass") == "static":
+                        hosts.append(g_)
+    for h_ in hosts:
+        for c in A.calls_in(unit.body(h_)):
+            for a in A.kids(c)[1:]:
+                lit = A.string_literal(a)
+                if lit and "%a" in lit and "..." in lit:
+                    lits.append(lit)
     return sorted(set(lits))
 
 
